@@ -500,7 +500,7 @@ func clStitch(c *Ctx) {
 		seen := map[ssa.Value]bool{}
 		var walk func(v ssa.Value)
 		walk = func(v ssa.Value) {
-			v = strip(v)
+			v = strip(seeRet(strip(v)))
 			if seen[v] {
 				return
 			}
